@@ -54,9 +54,11 @@ func checkC14(c *Ctx) {
 	res.Rule = "random config struct types as C11 plus embedded structs, alias tags (dialsalias) on ~40% of the leaves at any depth; per aliased leaf one of neither / primary / alias / both (both on at most one leaf in ~30% of the cases), other leaves set with 45%; " +
 		"each case through env.Source (real environment; also vs the Lean model), an alias-wrapped JSON decoder as ez builds it, flag.Set and pflag.Set; oracle per leaf (primary or alias value, unset, error naming the field). " +
 		"plus a stream of configs holding a slice / array of structs whose ELEMENT fields (by value: string, int, bool, struct, named scalar; pointer; slice) carry aliases, through the alias-wrapped JSON decoder, four patterns per element and field (set = non-zero there). " +
+		"plus a stream of configs whose aliased fields are themselves collections ([]struct, []struct with aliased element fields, []string, []int, string maps), each supplied as a list of 0-3 entries (35% explicitly empty) under neither / primary / alias / both, same decoder. " +
 		"non-trivial: an aliased leaf below the top level or >= 2 aliased leaves; distinct = by type + pattern vector + source"
 	n := c.scale(1500, 20000)
 	c14Elements(c, n/3)
+	c14Collections(c, n/3)
 	for i := 0; i < n; i++ {
 		g := &envTypeGen{r: r, used: map[string]bool{}, alias: true, embed: r.Chance(40)}
 		T := g.genStruct(1+r.Intn(3), nil, nil)
